@@ -4,9 +4,12 @@ package c02
 // the real, process-global caddy instance) and records the step trace.
 
 import (
+	"context"
 	"encoding/json"
 	"fmt"
+	"io"
 	"net"
+	"net/http"
 	"os"
 	"sort"
 	"strconv"
@@ -46,6 +49,9 @@ type tokSpec struct {
 	load int  // index of the load during which the request is in flight (accepted before it)
 	addr int  // address it is sent to
 	rel  byte // release point: p s t r d
+	// proxy: the request goes through the real reverse_proxy to a backend the harness holds (written
+	// with an upper-case release letter); otherwise it is parked in the probe handler itself
+	proxy bool
 }
 
 type scenario struct {
@@ -122,7 +128,7 @@ func (ev *event) probed() bool { return ev.ans[0] != "" }
 func (ev *event) String() string {
 	head := fmt.Sprintf("%c.%d", ev.kind, ev.gen)
 	switch ev.kind {
-	case 'W', 'J', 'Z':
+	case 'W', 'J', 'Z', 'K':
 		return head
 	case 'M':
 		return head + "." + ev.mod
@@ -150,6 +156,8 @@ type token struct {
 	released bool
 	acceptor int
 	result   string
+
+	ctxCancelled atomic.Bool // the context of the parked request (or of the upstream request) ended before the release
 }
 
 type runner struct {
@@ -162,20 +170,21 @@ type runner struct {
 	opened map[int]int
 	closed map[int]int
 
-	hi, lo    atomic.Int64 // generations that may legitimately answer right now: lo..hi
-	epoch     atomic.Int64 // odd while listeners of a retired config may be closing
-	loading   int          // index of the load in progress
-	curGen    int          // generation of the running config (-1: none)
-	swapped   bool
-	firstP    map[int]bool
-	injected  map[int]bool // loads whose injected late failure fired
-	hung      [nAddr]bool  // a held address did not answer within probeTimeout earlier in this case
-	used      [nAddr]bool  // addresses some config of the scenario lists
-	linger    [nUnix]bool  // a dropped unix socket was seen accepting without answering; not probed again until rebound
-	results   []string     // per load: ok err same stale
-	poisoned  bool         // a config that should have been accepted was rejected; the scenario stops there
-	cut       int          // number of events that belong to the scenario proper
-	listeners []*probeListener
+	hi, lo        atomic.Int64 // generations that may legitimately answer right now: lo..hi
+	epoch         atomic.Int64 // odd while listeners of a retired config may be closing
+	loading       int          // index of the load in progress
+	curGen        int          // generation of the running config (-1: none)
+	swapped       bool
+	ctxCancelSeen map[int]bool
+	firstP        map[int]bool
+	injected      map[int]bool // loads whose injected late failure fired
+	hung          [nAddr]bool  // a held address did not answer within probeTimeout earlier in this case
+	used          [nAddr]bool  // addresses some config of the scenario lists
+	linger        [nUnix]bool  // a dropped unix socket was seen accepting without answering; not probed again until rebound
+	results       []string     // per load: ok err same stale
+	poisoned      bool         // a config that should have been accepted was rejected; the scenario stops there
+	cut           int          // number of events that belong to the scenario proper
+	listeners     []*probeListener
 
 	tokMu  sync.Mutex
 	tokens map[string]*token
@@ -356,6 +365,11 @@ func (r *runner) callback(kind byte, gen int, mod string) error {
 		r.swapped = true
 		r.mark('W', r.loading)
 	}
+	if kind == 'C' && !r.ctxCancelSeen[gen] {
+		// the first Cleanup of a config: its context has just been cancelled (cfg.cancelFunc)
+		r.ctxCancelSeen[gen] = true
+		r.mark('K', gen)
+	}
 	r.record(kind, gen, mod, true)
 	switch {
 	case kind == 'P' && !r.firstP[gen]:
@@ -417,21 +431,63 @@ func (r *runner) closing(l *probeListener) error {
 
 // ---- in-flight requests
 
-func (r *runner) blockHere(id string, gen int) {
+func (r *runner) noteAccepted(id string, gen int) *token {
 	r.tokMu.Lock()
 	t := r.tokens[id]
 	r.tokMu.Unlock()
 	if t == nil {
-		return
+		return nil
 	}
 	select {
 	case t.accepted <- gen:
 	default:
 	}
+	return t
+}
+
+// blockHere parks the request until the harness releases the token; it reports whether the
+// request's context was cancelled before that.
+func (r *runner) blockHere(id string, gen int, ctx context.Context) bool {
+	t := r.noteAccepted(id, gen)
+	if t == nil {
+		return false
+	}
+	return t.hold(ctx)
+}
+
+// hold waits for the release and says whether ctx ended first.
+func (t *token) hold(ctx context.Context) bool {
+	cancelled := false
+	select {
+	case <-t.release:
+		return false
+	case <-ctx.Done():
+		cancelled = true
+		t.ctxCancelled.Store(true)
+	case <-time.After(20 * time.Second):
+		return false
+	}
 	select {
 	case <-t.release:
 	case <-time.After(20 * time.Second):
 	}
+	return cancelled
+}
+
+// backendBodyLen: what the held backend answers through reverse_proxy: "gen=<k> " + padding + "END".
+const backendBodyLen = 100000
+
+func (r *runner) serveBackend(w http.ResponseWriter, req *http.Request) {
+	tok := strings.TrimPrefix(req.URL.Path, "/proxy/")
+	r.tokMu.Lock()
+	t := r.tokens[tok]
+	r.tokMu.Unlock()
+	if t != nil {
+		t.hold(req.Context()) // ends early when the proxy abandons the upstream request
+	}
+	head := "gen=" + req.Header.Get("X-Verif-Gen") + " "
+	w.Header().Set("Content-Length", fmt.Sprint(backendBodyLen))
+	io.WriteString(w, head+strings.Repeat("z", backendBodyLen-len(head)-3)+"END")
 }
 
 func (r *runner) startTokens(load int) {
@@ -439,7 +495,19 @@ func (r *runner) startTokens(load int) {
 		t := t
 		t.started = true
 		go func() {
-			ans, _, detail := r.env.get(t.spec.addr, "/block/"+t.id, 25*time.Second)
+			path := "/block/" + t.id
+			if t.spec.proxy {
+				path = "/proxy/" + t.id
+			}
+			ans, _, detail, body := r.env.getBody(t.spec.addr, path, 25*time.Second)
+			if t.spec.proxy && isGenChar(ans) && !strings.HasSuffix(body, "END") {
+				ans, detail = ansBroken, fmt.Sprintf("response body through reverse_proxy incomplete: %d bytes", len(body))
+			}
+			// the request's context (or, through the proxy, the upstream request's) ended while the
+			// request was parked and this client was connected all along
+			if strings.Contains(body, "ctx=cancelled") || t.ctxCancelled.Load() {
+				ans += "!"
+			}
 			t.done <- [2]string{ans, detail}
 		}()
 		select {
@@ -489,7 +557,10 @@ func (r *runner) releaseAt(point byte) {
 		select {
 		case d := <-t.done:
 			ev.res = d[0]
-			if d[0] != genChar(t.acceptor) {
+			if strings.HasSuffix(d[0], "!") {
+				r.fail("in-flight-request-context-cancelled-by-reload", fmt.Sprintf("request %s accepted by config %d on %s before load %d, released at %c: its context was cancelled while it was in flight and the client still connected (client got %q %s)",
+					t.id, t.acceptor, addrNames[t.spec.addr], t.spec.load, point, d[0], d[1]))
+			} else if d[0] != genChar(t.acceptor) {
 				cls := "inflight-lost"
 				if isGenChar(d[0]) {
 					cls = "inflight-answered-by-other-config"
@@ -525,8 +596,11 @@ func (r *runner) configJSON(gen int, c cfgSpec) []byte {
 		servers[fmt.Sprintf("s%d", i)] = map[string]any{
 			"listen":            listen,
 			"listener_wrappers": []any{map[string]any{"wrapper": "verif_c02", "gen": gen, "srv": i}},
-			"routes":            []any{map[string]any{"handle": []any{map[string]any{"handler": "verif_c02", "gen": gen, "srv": i}}}},
-			"automatic_https":   map[string]any{"disable": true},
+			"routes": []any{map[string]any{"handle": []any{
+				map[string]any{"handler": "verif_c02", "gen": gen, "srv": i},
+				map[string]any{"handler": "reverse_proxy", "upstreams": []any{map[string]any{"dial": r.env.backendAddr}}},
+			}}},
+			"automatic_https": map[string]any{"disable": true},
 		}
 	}
 	httpApp := map[string]any{"servers": servers}
